@@ -20,9 +20,9 @@ func init() {
 		Worker: seqWorker(nil),
 		Main: func(c *explore.Ctx) {
 			var specs []seqSpec
-			d := 3
+			d := 4
 			if c.Tier == "thorough" {
-				d = 4
+				d = 5
 			}
 			for _, cfg := range []string{"flushy", "nopool", "nocache", "nopoolcache", "snappy", "tinycache", "default", "defaultnopool", "bigbatch"} {
 				specs = append(specs, seqSpec{Cfg: cfg + "/bytewise", Alpha: c20Alpha, Depth: d, Checks: "db,views", Mode: "scribble,every"})
